@@ -61,6 +61,11 @@ pub fn check_est_net(v: &[EstTime], links: &[Link], origins: &[u32], dests: &[u3
         return;
     }
     let last = n - 1;
+    if std::env::var("VERIF_DUMP").is_ok() {
+        for (i, e) in v.iter().enumerate() {
+            eprintln!("DUMP est {i}: {:?} link {} sched {:.2} to_next {:.3} dist {:.1} speed {:.3} next {} alt {} prev {} palt {}", e.link_event.est_type, e.link_event.link_idx.idx(), e.time_sched.value, e.time_to_next.value, e.dist_to_next.value, e.speed.value, e.idx_next, e.idx_next_alt, e.idx_prev, e.idx_prev_alt);
+        }
+    }
     // ---- (1) index ranges and reciprocity
     for (i, e) in v.iter().enumerate() {
         for (name, x) in [("idx_next", e.idx_next), ("idx_next_alt", e.idx_next_alt), ("idx_prev", e.idx_prev), ("idx_prev_alt", e.idx_prev_alt)] {
